@@ -405,3 +405,84 @@ Proof.
   rewrite c64_run_syms_only, syms_only_tokens in A. rewrite c32_run_syms_only, syms_only_tokens in B.
   rewrite c16_run_syms_only, syms_only_tokens in D. auto.
 Qed.
+
+(* ------------------------------------------- the escape syntax of a token *)
+
+(* RFC 1035 5.1: \DDD with DDD <= 255, or \X with X a printable ASCII
+   character other than a digit *)
+Inductive wf_esc : list N -> Prop :=
+| we_nil : wf_esc []
+| we_char c r : c <> 92 -> wf_esc r -> wf_esc (c :: r)
+| we_dec d1 d2 d3 r : is_digit d1 = true -> is_digit d2 = true -> is_digit d3 = true ->
+    (d1 - 48) * 100 + (d2 - 48) * 10 + (d3 - 48) <= 255 -> wf_esc r -> wf_esc (92 :: d1 :: d2 :: d3 :: r)
+| we_simple c r : is_digit c = false -> 32 <= c <= 126 -> wf_esc r -> wf_esc (92 :: c :: r).
+
+Lemma symbols_ok_wf s : wf_esc s -> snd (symbols s) = true.
+Proof.
+  induction 1 as [|c r Hc Hr IH|d1 d2 d3 r H1 H2 H3 Hv Hr IH|c r Hd Hc Hr IH].
+  - reflexivity.
+  - cbn [symbols]. destruct (N.eqb_spec c 92); [contradiction|]. cbn [negb].
+    destruct (symbols r). exact IH.
+  - cbn [symbols N.eqb Pos.eqb negb]. rewrite H1, H2, H3. change sym_decimal_max with 255.
+    destruct (N.ltb_spec 255 ((d1 - 48) * 100 + (d2 - 48) * 10 + (d3 - 48))); [lia|].
+    destruct (symbols r). exact IH.
+  - cbn [symbols N.eqb Pos.eqb negb]. rewrite Hd.
+    change sym_simple_min with 32. change sym_simple_max with 126.
+    destruct (N.ltb_spec 255 c); [lia|].
+    destruct (N.ltb_spec c 32); [lia|]. destruct (N.ltb_spec 126 c); [lia|]. cbn [orb].
+    destruct (symbols r). exact IH.
+Qed.
+
+Lemma wf_symbols_ok n : forall s, (length s <= n)%nat -> snd (symbols s) = true -> wf_esc s.
+Proof.
+  induction n as [|n IH]; intros s L H.
+  - destruct s; [constructor|cbn in L; lia].
+  - destruct s as [|c r]; [constructor|]. cbn [symbols] in H. cbn [length] in L.
+    destruct (N.eqb_spec c 92) as [->|Nc]; cbn [negb] in H.
+    2:{ destruct (symbols r) as [l ok] eqn:E. cbn [snd] in H. apply we_char; [exact Nc|].
+        apply IH; [lia|]. rewrite E. exact H. }
+    destruct r as [|d1 r1]; [discriminate H|]. cbn [length] in L.
+    destruct (is_digit d1) eqn:D1.
+    + destruct r1 as [|d2 r2]; [discriminate H|]. destruct (is_digit d2) eqn:D2; [|discriminate H].
+      destruct r2 as [|d3 r3]; [discriminate H|]. destruct (is_digit d3) eqn:D3; [|discriminate H].
+      change sym_decimal_max with 255 in H.
+      destruct (N.ltb_spec 255 ((d1 - 48) * 100 + (d2 - 48) * 10 + (d3 - 48))); [discriminate H|].
+      destruct (symbols r3) as [l ok] eqn:E. cbn [snd] in H. cbn [length] in L.
+      apply we_dec; auto. apply IH; [lia|]. rewrite E. exact H.
+    + change sym_simple_min with 32 in H. change sym_simple_max with 126 in H.
+      destruct (N.ltb_spec 255 d1); [discriminate H|].
+      destruct (N.ltb_spec d1 32); [discriminate H|]. destruct (N.ltb_spec 126 d1); [discriminate H|].
+      cbn [orb] in H. destruct (symbols r1) as [l ok] eqn:E. cbn [snd] in H.
+      apply we_simple; [exact D1|lia|]. apply IH; [lia|]. rewrite E. exact H.
+Qed.
+
+Theorem symbols_ok_iff_wf s : snd (symbols s) = true <-> wf_esc s.
+Proof. split; [apply (wf_symbols_ok (length s)); lia|apply symbols_ok_wf]. Qed.
+
+(* an escaped character stands for itself only if printable ASCII; a decimal
+   escape never stands for a character of an encoding *)
+Theorem into_char_spec y :
+  into_char y = match y with
+                | SChar c => Some c
+                | SSimple c => if (32 <=? c) && (c <? 127) then Some c else None
+                | SDecimal _ => None
+                end.
+Proof. destruct y; reflexivity. Qed.
+
+(* with the repaired scanner a token is accepted only if its escapes are
+   well-formed *)
+Theorem scan_token_requires_wf_escapes token bs :
+  (convert_token true conv64 c64_sym c64_process_tail c64_new token = Ok bs \/
+   convert_token true conv32 c32_sym c32_process_tail c32_new token = Ok bs \/
+   convert_token true conv16 c16_sym c16_process_tail c16_new token = Ok bs) -> wf_esc token.
+Proof.
+  intros H. apply symbols_ok_iff_wf. destruct (snd (symbols token)) eqn:E; [reflexivity|]. exfalso.
+  destruct H as [H|[H|H]]; exact (convert_token_bad_escape _ _ _ _ token E bs H).
+Qed.
+
+Example wf_esc_examples :
+  snd (symbols [92; 50; 53; 53]) = true /\ snd (symbols [92; 50; 53; 54]) = false /\
+  snd (symbols [92; 32]) = true /\ snd (symbols [92; 31]) = false /\
+  snd (symbols [92; 126]) = true /\ snd (symbols [92; 127]) = false /\
+  into_char (SSimple 126) = Some 126 /\ into_char (SSimple 127) = None /\ into_char (SSimple 31) = None.
+Proof. vm_compute. repeat split. Qed.
